@@ -324,7 +324,8 @@ def real_dispatch(ctx: Ctx):
     df = pandas.DataFrame({"x": [1.0, 2.0]})
     expect = [(df, None, PandasMaterializer), (df, "pandas", PandasMaterializer), (df, "sparse", PandasMaterializer), (df, "narwhals", NarwhalsMaterializer),
               (pyarrow.Table.from_pandas(df), None, NarwhalsMaterializer), (pyarrow.Table.from_pandas(df), "numpy", NarwhalsMaterializer),
-              (numpy.rec.fromarrays([numpy.array([1.0, 2.0])], names=["x"]), None, PandasMaterializer)]
+              (numpy.rec.fromarrays([numpy.array([1.0, 2.0])], names=["x"]), None, PandasMaterializer),
+              ({"x": [1.0, 2.0]}, None, PandasMaterializer), ({"x": [1.0, 2.0]}, "sparse", PandasMaterializer)]     # a plain dict of columns is a declared input
     for data, out, cls in expect:
         ctx.traces += 1
         ctx.evaluations += 1
